@@ -48,6 +48,8 @@ def child_main(argv):
                                   n_validate=inst.n_validate, goal_timeout_ms=inst.goal_timeout_ms)
         else:
             values = json.load(open(argv[5]))
+            if '__seed__' in values:
+                seed = values.pop('__seed__')
             res = harness.run_conc(inst.fn, values, params=params, seed=seed)
     else:
         values = json.load(open(argv[5])) if mode != 'sym' else None
@@ -164,6 +166,13 @@ def run_check(cid, tier, only=None, verbose=True):
             rjobs.append((j, 'model', k, Job(cid, tier, j.idx, 'conc', f'replay{k}', 300, mdl['values'])))
         for k, v in enumerate(r.get('validation', []) if not insts[j.idx].twin else []):
             rjobs.append((j, 'val', k, Job(cid, tier, j.idx, 'conc', f'val{k}', 300, v['values'])))
+    # instances whose symbolic run was inconclusive: a bounded concrete search (boundary-biased values) on the unshimmed code.
+    # It can only turn "inconclusive" into a reproduced violation, never into "held".
+    for j in jobs:
+        r = j.result
+        if r.get('status') not in ('ok',) and not insts[j.idx].twin:
+            for k in range(int(os.getenv('VF_FALLBACK_RUNS', '8'))):
+                rjobs.append((j, 'search', k, Job(cid, tier, j.idx, 'conc', f'search{k}', 300, {'__seed__': 1000 + k})))
     run_jobs([x[3] for x in rjobs])
 
     known, _fixed = known_findings()
@@ -184,6 +193,11 @@ def run_check(cid, tier, only=None, verbose=True):
             if jj is not j:
                 continue
             rr = rj.result
+            if kind == 'search':
+                if rr.get('status') in ('ok', 'exception') and (rr.get('failures') or rr.get('status') == 'exception'):
+                    lab = (rr.get('failures') or ['exception'])[0]
+                    reproduced.append((dict(label=lab, values=rr.get('values', {}), observed=[], from_concrete_search=True), rr))
+                continue
             if kind == 'model':
                 tot['replayed'] += 1
                 mdl = r['models'][k]
@@ -222,7 +236,7 @@ def run_check(cid, tier, only=None, verbose=True):
         for s in r.get('samples', [])[:1]:
             if len(samples) < 4:
                 samples.append(dict(instance=it.name, **s))
-        if r.get('status') != 'ok':
+        if r.get('status') != 'ok' and not reproduced:
             problems.append(f'{it.name}: {r.get("status")}: {(r.get("error") or "")[:1500]}')
             continue
         if reproduced:
